@@ -23,6 +23,7 @@ type gene struct {
 	gffNamed bool // has a Name attribute
 	gffID    bool // has an ID attribute
 	gffType  string
+	idSuffix string // distinguishes the IDs of features that share a name
 }
 
 const stdTCAG = "FFLLSSSSYY**CC*WLLLLPPPPHHQQRRRRIIIMTTTTNNKKSSRRVVVVAAAADDEEGGGG"
@@ -362,7 +363,7 @@ func gffRowsOf(g gene) []gffRow {
 		}
 		id, name := ".", "."
 		if g.gffID {
-			id = "cds-" + g.name
+			id = "cds-" + g.name + g.idSuffix
 		}
 		if g.gffNamed {
 			name = g.name
